@@ -140,7 +140,11 @@ func H_RelIsAbsFromPen() {
 func H_Segments() {
 	var z render.Renderer
 	var ras rec.Raster
-	setup(&z, &ras)
+	s := render.VPState{ViewBox: ivg.ViewBox{MinX: -32, MinY: -16, MaxX: 32, MaxY: 48}, R: image.Rect(0, 0, 48, 20), LOD1: 1}
+	z.SetRasterizer(&ras, s.R)
+	z.VPSet(&s)
+	ras.MoveTo(vp.F32("penx"), vp.F32("peny"))
+	ras.Log = nil
 	rx, ry := vp.F32("rx"), vp.F32("ry")
 	vp.Assume(vp.All(rx != 0, ry != 0, rx == rx, ry == ry))
 	rot, x, y := vp.F32("rot"), vp.F32("x"), vp.F32("y")
